@@ -714,3 +714,58 @@ Lemma closed_always_lemma (g : graph) (c : cfg) (d0 : list node) tr st :
 Proof.
   intros Hc Ha. exact (i_closed g c d0 st (run_inv g c d0 tr _ _ (init_inv g c d0) Ha) Hc).
 Qed.
+
+(* F12 needs no pre-population: with an EMPTY (trivially link-closed) digest-keyed
+   destination, a source graph in which a manifest's bytes also occur as a blob (node 3 = the
+   bytes of manifest 2 under a non-manifest media type, used as a layer of manifest 4) is
+   copied like this: blob 3 is pushed, then Exists(manifest 2) answers true, 2 is skipped
+   and its layer 1 never arrives -- Copy succeeds and tags the root 5. *)
+Definition g_twin2 : graph :=
+  mkGraph 6 (fun n => match n with 2 => [0; 1] | 4 => [0; 3] | 5 => [4; 2] | _ => [] end)
+          (fun _ => false) (fun n => match n with 2 | 4 | 5 => true | _ => false end)
+          (fun n => if Nat.eqb n 3 then 2 else n).
+Definition c_twin2 : cfg := mkCfg 3 MTagger 5 false true [] [].
+Definition tr_twin2 : list event :=
+ [ExB 5; ExE 5 false; SFB 5; SFE 5; SFC 5;
+  ExB 4; ExE 4 false; SFB 4; SFE 4; SFC 4;
+  ExB 0; ExE 0 false; Cb CPre 0; SFB 0; SFE 0; PuB 0 false; PuE 0 false POk; SFC 0; Cb CPost 0;
+  ExB 3; ExE 3 false; Cb CPre 3; SFB 3; SFE 3; PuB 3 false; PuE 3 false POk; SFC 3; Cb CPost 3;
+  ExB 2; ExE 2 true; Cb CSkip 2;
+  Cb CPre 4; PuB 4 false; PuE 4 false POk; Cb CPost 4;
+  Cb CPre 5; PuB 5 false; PuE 5 false POk; TagB 5; TagE 5; Cb CPost 5; Ret true].
+
+Lemma closure_refuted_in_call :
+  exists g c tr st,
+    closed_nodes g [] /\ accepts g c [] tr = Some st /\ returned st = Some true /\
+    tag st = Some (c_root c) /\
+    exists n, reach g (c_root c) n /\ has g (dst st) n = false.
+Proof.
+  exists g_twin2, c_twin2, tr_twin2. eexists.
+  split; [intros m x []|]. split; [vm_compute; reflexivity|].
+  split; [reflexivity|]. split; [reflexivity|].
+  exists 1. split; [|reflexivity].
+  apply reach_step with 2; [simpl; auto|]. apply reach_step with 1; [simpl; auto|]. constructor.
+Qed.
+
+(* mt_consistent is exactly what the witnesses lack *)
+Lemma twin2_not_mt_consistent : ~ mt_consistent g_twin2.
+Proof.
+  intro H. destruct (H 2 3 1 eq_refl) as [x [Hx _]]; [simpl; auto|]. simpl in Hx. contradiction.
+Qed.
+
+(* further satisfiability witnesses: ReferencePusher with the root already present; a Mounter
+   destination whose candidate repository has the (blob) root; two roots (ExtendedCopyGraph) *)
+Lemma example_runs_more :
+  (exists st, accepts g_ex (mkCfg 2 MRefPush 3 false true [] []) [0; 1; 2; 3]
+                [ExB 3; ExE 3 true; SFB 3; SFE 3; PuB 3 true; PuE 3 true PExists; SFC 3; Ret true] = Some st /\
+              returned st = Some true /\ tag st = Some 3) /\
+  (exists st, accepts g_blob (mkCfg 3 MTagger 0 true true [] []) []
+                [ExB 0; ExE 0 false; Cb CMountFrom 0; MtB 0; MtE 0 MMounted; Cb CMounted 0;
+                 TagB 0; TagE 0; Ret true] = Some st /\
+              returned st = Some true /\ tag st = Some 0 /\ present_nodes g_blob (dst st) = [0]) /\
+  (exists st, accepts g_ex (mkCfg 2 MGraph 3 false true [] [2]) [0; 1; 2; 3]
+                [ExB 3; ExE 3 true; Cb CSkip 3; ExB 2; ExE 2 true; Cb CSkip 2; Ret true] = Some st /\
+              returned st = Some true).
+Proof.
+  repeat split; eexists; (split; [vm_compute; reflexivity|]); repeat split; reflexivity.
+Qed.
